@@ -7,6 +7,7 @@ exceptions) and by R-EXEC (which predicts the response). It is *input* to both,
 never part of the algorithm under test.
 """
 import collections
+import collections.abc
 import json
 import random
 
@@ -314,6 +315,35 @@ class LazyDict(dict):
         return self._binding.produce(self._obj, f, {})
 
 
+class LazyMapping(collections.abc.Mapping):
+    """A mapping that is not a dict (what MappingProxyType, ChainMap or a row object of a database driver are);
+    it also carries its type name as an attribute, which is where non-dict values are asked for it."""
+
+    def __init__(self, binding, obj):
+        self._binding, self._obj = binding, obj
+        self.__typename__ = obj.type
+
+    def _names(self):
+        return ["__typename__"] + [f.python_name or f.name for f in self._binding.s.types[self._obj.type].fields]
+
+    def __getitem__(self, key):
+        if key == "__typename__":
+            return self._obj.type
+        f = self._binding.field_by_pyname(self._obj.type, key)
+        if f is None:
+            raise KeyError(key)
+        return self._binding.produce(self._obj, f, {})
+
+    def __contains__(self, key):
+        return key == "__typename__" or self._binding.field_by_pyname(self._obj.type, key) is not None
+
+    def __iter__(self):
+        return iter(self._names())
+
+    def __len__(self):
+        return len(self._names())
+
+
 class LazyObject(object):
     """Plain object root served by the default resolver (attributes / methods)."""
 
@@ -333,7 +363,12 @@ class LazyObject(object):
             def method(context, info, **kwargs):
                 return binding.produce(obj, f, kwargs, info)
             return method
-        return binding.produce(obj, f, {})
+        value = binding.produce(obj, f, {})
+        if callable(value):
+            # the default resolver calls callable attributes (documented: they are methods); a value that happens
+            # to be callable therefore has to be handed over by a method
+            return lambda context, info, **kwargs: value
+        return value
 
 
 class Binding(object):
@@ -360,6 +395,9 @@ class Binding(object):
         if isinstance(v, Obj):
             mode = self.world.served_by(v.type)
             if mode == "dict":
+                # a third of the dict-served objects are mappings that are not dicts
+                if int(h64("mapping:" + v.oid)[:2], 16) % 3 == 0:
+                    return LazyMapping(self, v)
                 return LazyDict(self, v)
             if mode == "object":
                 return LazyObject(self, v)
@@ -369,7 +407,7 @@ class Binding(object):
         return v
 
     def obj_of(self, parent):
-        if isinstance(parent, LazyDict):
+        if isinstance(parent, (LazyDict, LazyMapping)):
             return parent._obj
         if isinstance(parent, LazyObject):
             return parent.__dict__["_obj"]
